@@ -485,6 +485,48 @@ def rule_operator_tables(F, R, which=('binop', 'countop', 'fixpoint')):
         if not ok:
             R.violation('rsbdd::parser::SymbolicBDD::parse_fixed_point / T / expected keyword', 'T', 'parse_fixed_point(initial) does not expect GFP for initial=true and LFP for initial=false')
 
+def rule_number_text(F, R):
+    """a number in the text is that number: the payload of a Countable token is `<text of the number group>.parse()` with a failed
+    conversion propagated as the error it is - no fallback value (`unwrap_or(..)`, `unwrap_or_default()`, `ok()`), no arithmetic on the way"""
+    import flow
+    lib = F.lib()
+    fn = PARSER + 'tokenize'
+    t = lib.ithir.get(fn)
+    if t is None:
+        R.violation(fn + ' / T / anchor', 'UNDECIDABLE', 'tokenize not found'); return
+    fl = flow.Flow(lib, max_depth=3)
+    found = []
+    flow.scan(fl, t['body'], {}, lambda x: x.get('k') == 'Adt' and canon(x.get('adt', '')) == TOK and x.get('variant') == 'Countable', found)
+    def group_text(x):
+        # the text of the `countable` group: name(c, "countable") looked at through unwrap / as_str / map(as_str)
+        if x[0] == 'some_payload': return group_text(x[1])
+        if x[0] == 'optmap' and x[3] == ('call', 'regex::Match::as_str', (x[2],)): return group_text(x[1]) == 'match' and 'text'
+        if x[0] == 'call' and x[1] == 'regex::Match::as_str' and len(x[2]) == 1: return group_text(x[2][0]) == 'match' and 'text'
+        if x[0] == 'call' and x[1] == 'regex::Captures::name' and len(x[2]) == 2 and x[2][1] == ('lit', 'countable'): return 'match'
+        if x[0] == 'call' and x[1].split('::')[-1] in ('as_ref', 'deref', 'borrow', 'clone', 'to_string', 'to_owned', 'as_str') and len(x[2]) == 1: return group_text(x[2][0])
+        return None
+    n = 0
+    for e, env in found:
+        if not e['fields']: continue
+        n += 1
+        term = fl.ev(e['fields'][0]['expr'], env)
+        inner = term
+        while inner[0] == 'call' and inner[1] in ('std::result::Result::map_err',) and inner[2]: inner = inner[2][0]
+        ok = inner[0] == 'call' and inner[1] == 'core::str::<impl str>::parse' and len(inner[2]) == 1 and group_text(inner[2][0]) == 'text'
+        why = 'the value of the number token is %s, not the parsed text of the number' % flow.show(term)[:160]
+        if ok:
+            # ... and a failed conversion leaves tokenize as an error: the parse result sits under a `?` (or is returned)
+            parses = [x for x in walk(t['body']) if x['k'] == 'Call' and callee_name(x) == 'core::str::<impl str>::parse']
+            tried = set()
+            for m in walk(t['body']):
+                if m['k'] == 'Match' and 'TryDesugar' in str(m.get('source')):
+                    for x in walk(m['scrutinee']): tried.add(id(x))
+            ok = bool(parses) and all(id(x) in tried for x in parses)
+            why = 'the conversion of the number text can fail (digits beyond usize, digits that are not ASCII): the failure must leave tokenize as an error (`?`)'
+        R.count('T:number-conversion'); R.obligation(ok, 'T number text')
+        if not ok: R.violation(fn + ' / T / number conversion', 'T', why, e.get('loc'))
+    if n == 0: R.violation(fn + ' / T / number conversion / VACUITY', 'VACUITY', 'no Countable token is constructed in tokenize')
+
 def rule_input_text(F, R):
     """what is tokenised is the whole input, unchanged: tokenize reads its reader with one `read_to_string` into a string that nothing
     else writes, and the token regex runs over exactly that string (reading line by line drops the separators between the lines)"""
